@@ -20,10 +20,36 @@ def _unref(t):
     return t
 
 
+def _never_ok(a):
+    a = _unref(a)
+    if a[0] == "call" and lib.norm(a[1]).endswith("FromResidual::from_residual"):
+        return True
+    if a[0] == "agg" and (a[2] or "").split("::")[-1] in ("Err", "None", "Break"):
+        return True
+    return False
+
+
+def _prune_phi_for_payload(inner):
+    """alternatives of `inner` that can carry a success payload (drops `?` residuals and Err/None aggregates)"""
+    x = inner
+    if x[0] in ("ref", "deref"):
+        return (x[0], _prune_phi_for_payload(x[1])) + tuple(x[2:])
+    if x[0] == "call" and lib.norm(x[1]) == "std::ops::Try::branch" and x[2]:
+        return (x[0], x[1], [_prune_phi_for_payload(x[2][0])] + list(x[2][1:])) + tuple(x[3:])
+    if x[0] == "phi":
+        keep = [a for a in x[1] if not _never_ok(a)]
+        if keep and len(keep) < len(x[1]):
+            return keep[0] if len(keep) == 1 else ("phi", keep)
+    return x
+
+
 def simplify(t):
-    """field(aggregate, i) -> i-th operand (after substituting a closure value for its environment parameter)."""
+    """field(aggregate, i) -> i-th operand (after substituting a closure value for its environment parameter);
+    success-payload projections of a merged value ignore the alternatives that are always failures."""
     if isinstance(t, tuple):
         t = tuple(simplify(x) for x in t)
+        if t and t[0] == "downcast" and len(t) >= 3 and t[2] in ("Ok", "Some", "Continue"):
+            t = (t[0], _prune_phi_for_payload(t[1])) + tuple(t[2:])
         if t and t[0] == "field" and len(t) >= 3:
             base = _unref(t[1])
             if base[0] == "agg" and isinstance(t[2], int) and len(base) > 3 and t[2] < len(base[3]) and base[1] in ("closure", "tuple"):
@@ -144,6 +170,34 @@ def canon(s):
         if c < 0:
             break
         s = s[:m.start()] + s[m.end():c] + s[c + 1:]
+    # map(A, f)@OK with f a function path  ==  f(A@OK)
+    for _ in range(20):
+        m = None
+        for m_ in re.finditer(r"(?<![A-Za-z_])map\(", s):
+            o = m_.end() - 1
+            c = _match_paren(s, o)
+            if c < 0 or not s.startswith("@OK", c + 1):
+                continue
+            inner = s[o + 1:c]
+            d = 0
+            cut = -1
+            for j, ch in enumerate(inner):
+                if ch == "(":
+                    d += 1
+                elif ch == ")":
+                    d -= 1
+                elif d == 0 and inner.startswith(", ", j):
+                    cut = j
+            if cut < 0:
+                continue
+            a, f = inner[:cut], inner[cut + 2:]
+            if not re.fullmatch(r"[A-Za-z_][A-Za-z_0-9:]*", f):
+                continue
+            s = s[:m_.start()] + "%s(%s@OK)" % (f.split("::")[-1], a) + s[c + 1 + len("@OK"):]
+            m = m_
+            break
+        if m is None:
+            break
     for _ in range(20):
         changed = False
         for m in re.finditer(r"(?<![A-Za-z_])and_then\(", s):
@@ -175,3 +229,69 @@ def canon(s):
         if not changed:
             break
     return s
+
+
+VALUE_TRANSPARENT = ("std::option::Option::<T>::as_deref", "std::option::Option::<T>::as_ref", "std::string::String::as_str", "std::ops::Deref::deref",
+                     "std::convert::AsRef::as_ref", "std::borrow::Borrow::borrow", "std::clone::Clone::clone", "std::option::Option::<&T>::cloned", "std::option::Option::<&T>::copied")
+
+
+def value_alts(W, bv, t, depth=0):
+    """Alternatives of a plain (non-Option) value, looking through `unwrap_or(x, d)`, `unwrap_or_else(x, || d)`,
+    `unwrap_or_default`, matches (phi) and borrow/deref adapters: [("payload", x) | ("value", term)]"""
+    t = _unref(t)
+    if depth > 10:
+        return [("value", t)]
+    if t[0] == "phi":
+        out = []
+        for a in t[1]:
+            out += value_alts(W, bv, a, depth + 1)
+        return out
+    if t[0] == "call":
+        callee = lib.norm(t[1])
+        if callee in VALUE_TRANSPARENT and t[2]:
+            return value_alts(W, bv, t[2][0], depth + 1)
+        if callee in (OPTION + "unwrap_or", OPTION + "unwrap_or_else") and len(t[2]) == 2:
+            x = _unref(t[2][0])
+            while x[0] == "call" and lib.norm(x[1]) in VALUE_TRANSPARENT and x[2]:
+                x = _unref(x[2][0])
+            out = [("payload", x)]
+            d = t[2][1]
+            if callee.endswith("unwrap_or_else"):
+                clo = _closure_of(d)
+                if clo is not None and clo[2] in W.by_id:
+                    cb = W.bv(clo[2])
+                    d = simplify(lib.subst_params(cb.trace_local(0), [clo]))
+                    return out + value_alts(W, cb, d, depth + 1)
+            return out + value_alts(W, bv, d, depth + 1)
+    if t[0] == "field" and _unref(t[1])[0] == "downcast" and _unref(t[1])[2] in ("Some", "Ok", "Continue"):
+        x = _unref(_unref(t[1])[1])
+        while x[0] == "call" and lib.norm(x[1]) in VALUE_TRANSPARENT and x[2]:
+            x = _unref(x[2][0])
+        return [("payload", x)]
+    return [("value", t)]
+
+
+def inline_all(W, bv, t, keep=lambda name: False):
+    return simplify(_inline_all(W, bv, t, keep, (), 0))
+
+
+def _inline_all(W, bv, t, keep=lambda name: False, _stack=(), _depth=0):
+    """Replace, anywhere in a value term, calls to local synchronous non-trait functions by the callee's return-value
+    term with the arguments substituted (recursively), except callees for which keep(short name) is true (the named
+    primitives a rule talks about).  A private helper extracted from an expression then renders like the expression."""
+    if _depth > 30:
+        return t
+    if isinstance(t, list):
+        return [_inline_all(W, bv, x, keep, _stack, _depth + 1) for x in t]
+    if not isinstance(t, tuple):
+        return t
+    if t and t[0] == "call" and len(t) >= 4 and isinstance(t[2], list):
+        args = [_inline_all(W, bv, a, keep, _stack, _depth + 1) for a in t[2]]
+        cv = _local_callee(W, bv, t)
+        short = lib.norm(t[1]).split("::")[-1]
+        # only private functions are inlined: a public function is part of the vocabulary the rules are written in
+        if cv is not None and not cv.body.get("pub") and not keep(short) and cv.id not in _stack and len(cv.blocks) < 400:
+            body = _inline_all(W, cv, cv.trace_local(0), keep, _stack + (cv.id,), _depth + 1)
+            return simplify(lib.subst_params(body, args))
+        return (t[0], t[1], args) + tuple(t[3:])
+    return tuple(_inline_all(W, bv, x, keep, _stack, _depth + 1) if isinstance(x, (tuple, list)) else x for x in t)
